@@ -29,6 +29,7 @@ TECHNIQUE += '; freshness of make_parseinfo (a new record per call; no reuse key
 LEVEL_TEXT += ' Added clause: two invocations with the same rule and start get their own end positions.'
 TECHNIQUE += '; the skip before a rule is a fixpoint (= C09.R2a)'
 TECHNIQUE += '; a memo hit hands the stored result back unchanged (= C04.R2)'
+TECHNIQUE += '; answers have no memory: one stand-in input asked for all offsets in three orders (R3b)'
 LEVEL_NOTE = 'Trusted: str.splitlines(True) ends lines at \\n, \\r and \\r\\n (and keeps the terminators).'
 EXPLANATION = ('Static analysis of /repo sources, TatSu not imported. split_block_lines is resolved through helper functions to '
                'its splitting primitive; regex literals are compiled to NFAs by the checker and compared by language inclusion.')
